@@ -212,8 +212,8 @@ class DI:
 		"""
 		# XXX ジェネリック型の場合isinstanceで比較できないため、オリジナルの型を期待値として抽出
 		expect_types = [getattr(expect, '__origin__', expect) for expect in list(annos.values())[len(curried_args):]]
-		allow_types = [type(arg) for index, arg in enumerate(remain_args) if isinstance(arg, expect_types[index])]
-		if len(expect_types) != len(allow_types):
+		allow_types = [type(arg) for arg, expect_type in zip(remain_args, expect_types) if isinstance(arg, expect_type)]
+		if len(expect_types) != len(remain_args) or len(expect_types) != len(allow_types):
 			raise ValueError(f'Mismatch invoke arguments. factory: {injector}, expect: {expect_types}, actual: {[type(arg) for arg in remain_args]}')
 
 	def _clone(self) -> Self:
